@@ -241,12 +241,36 @@ func rewriteQualifiedRefs(expr string, refs map[string]string) string {
 	if expr == "" || len(refs) == 0 {
 		return expr
 	}
-	return qualifiedRefRe.ReplaceAllStringFunc(expr, func(tok string) string {
-		if out, ok := refs[tok]; ok {
-			return out
+	// string literals are data, not column references: HAVING k LIKE 'a.b' must keep its pattern
+	var out strings.Builder
+	for i := 0; i < len(expr); {
+		if q := expr[i]; q == '\'' || q == '"' {
+			j := i + 1
+			for j < len(expr) && expr[j] != q {
+				j++
+			}
+			if j < len(expr) {
+				out.WriteString(expr[i : j+1])
+				i = j + 1
+				continue
+			}
 		}
-		return tok
-	})
+		j := i
+		if expr[j] == '\'' || expr[j] == '"' {
+			j++ // unbalanced quote: treat it as ordinary text
+		}
+		for j < len(expr) && expr[j] != '\'' && expr[j] != '"' {
+			j++
+		}
+		out.WriteString(qualifiedRefRe.ReplaceAllStringFunc(expr[i:j], func(tok string) string {
+			if o, ok := refs[tok]; ok {
+				return o
+			}
+			return tok
+		}))
+		i = j
+	}
+	return out.String()
 }
 
 // rewriteGroupColumnRefs rewrites HAVING and ORDER BY so references to qualified
